@@ -16,8 +16,11 @@ and compared inside Coq (vm_compute, vlib.run_cases) with the model computed fro
                       (what plan_deterministic allows)
 Uuids are renamed canonically: 2*name_index (+1 for the requested copy), so nothing depends on uuid4 or on plan order.
 
-check_plans(specs, rep_prefix) -> list of disagreements (dicts: spec, stage, what); LAST_INFO has counters and the
-classification of every case (model_wf, group_dag).  `python3 -m harness.planner_a [n] [seed]` runs a self test.
+check_plans(specs, rep_prefix) -> list of disagreements (dicts: spec, stage, what); LAST_INFO has counters, the
+classification of every case (model_wf, group_dag) and LAST_INFO["deadlock_specs"]: the specs inside the known-defect
+domain of theorem PlannerA_plan_wf_refuted (accepted plan with a cyclic wait-for relation; the real plan equals the
+model's, the run never returns) - to be reported under known finding DEADLOCK_KEY, they are NOT disagreements.
+`python3 -m harness.planner_a [n] [seed]` runs a self test (builds Props/PlannerA.v, compares, runs under a watchdog).
 """
 from __future__ import annotations
 
@@ -32,6 +35,7 @@ from lib.vlib import cq_bool, cq_list, cq_nat
 REQ = ["MV.Model.Orch", "MV.Model.OrchCheck", "MV.Model.PlannerA"]
 STAGES = ["chk_request", "chk_graph", "chk_queue", "chk_closure", "chk_plan", "chk_request_plan"]
 LAST_INFO: Dict[str, Any] = {}
+DEADLOCK_KEY = "C04-cross-group-step-cycle"
 
 
 # ------------------------------------------------------------------------------------------------------------
